@@ -127,7 +127,11 @@ extern "C" void harness(void)
         }
     // consequently no predecessor can match again
     for (int j = 0; j < k; ++j)
-      if ((MB[j] & MB[k]) != 0) VCLAIM(5, !cm[j]->sequences->can_be_called(), "C05.predecessor_cannot_match_again");
+      if ((MB[j] & MB[k]) != 0)
+      {
+        VCLAIM(5, !cm[j]->sequences->can_be_called(), "C05.predecessor_cannot_match_again");
+        VCLAIM(2, !cm[j]->sequences->can_be_called(), "C02.passed_predecessors_cannot_take_later_calls");
+      }
     // C06: is_completed reflects exactly the pending ones
     bool comp1 = true, comp2 = true;
     for (int i = 0; i < 3; ++i)
